@@ -344,6 +344,21 @@ theorem ipfix_published_end_to_end {cfg : Cfg} {spec : CountSpec} (ft : Val → 
       DVal p (ipfixTree d.addr h (toJRecs ft recs)) ∧ jsonValid p = true :=
   ipfix_sol_spec ft hft ((C12.published_is_solo hc hr).2.2 id p hp)
 
+/-- what reaches the raw-socket sink, for any codec: hand the payloads the MQ consumer has taken from the channel, in the order
+it took them, to the producer model; for every outcome script of the network and every retry limit, every chunk the sink
+receives is one of those payloads — a solo result — followed by a newline -/
+theorem sink_chunk_is_solo {K : Codec} {cfg : Cfg} {spec : CountSpec} (hc : Canonical spec cfg.prog)
+    {c : K.Cache} {mem0 : BufId → Bytes} {s : State K} (hr : Reach cfg (init K c mem0) s)
+    (wo : Nat → Producer.WOut) (dl : Nat → Producer.DOut) (rm : Nat) :
+    ∀ e ∈ (Producer.run wo dl rm (s.delivered.reverse.map (·.2))).delivered,
+      ∃ id p, Sol s.log id p ∧ e.data = p ++ [10] := by
+  intro e he
+  obtain ⟨m, hm, hdata⟩ := (C14.delivered_in_order wo dl rm _).2 e he
+  have hmem : m ∈ s.delivered.reverse.map (·.2) := List.mem_of_getElem? hm
+  simp only [List.mem_map, List.mem_reverse] at hmem
+  obtain ⟨⟨id, p⟩, hin, rfl⟩ := hmem
+  exact ⟨id, p, (C12.published_is_solo hc hr).2.1 id p hin, hdata⟩
+
 /-- **C05 ∘ C14 (lines received by the message-queue sink, IPFIX over the raw-socket producer)**: hand the payloads the
 MQ consumer has taken from the channel, in the order it took them, to the producer model; then for every outcome
 script of the network (writes that succeed, are lost, fail; dials that succeed or fail) and every retry limit, every
@@ -368,18 +383,15 @@ theorem ipfix_sink_lines {cfg : Cfg} {spec : CountSpec} (ft : Val → Bytes)
     ipfix_sol_spec ft hft ((C12.published_is_solo hc hr).2.1 id p hin)
   exact ⟨d, cache, h, recs, errs, h1, h3, h4, by rw [hdata]; simp only [h5], by rw [← h5]; exact h7⟩
 
-/-- **C05 end to end (NetFlow v9)** -/
-theorem v9_published_end_to_end {cfg : Cfg} {spec : CountSpec} (ft : Val → Bytes)
-    (hft : ∀ i e v, FloatOk ⟨i, e, v, ft v⟩) (hc : Canonical spec cfg.prog)
-    {c : Cache} {mem0 : BufId → Bytes} {s : State (v9Codec ft)}
-    (hr : Reach cfg (init (v9Codec ft) c mem0) s) (id : Nat) (p : Bytes)
-    (hp : Event.published id p ∈ s.log) :
+/-- what a solo result of this codec is -/
+theorem v9_sol_spec (ft : Val → Bytes) (hft : ∀ i e v, FloatOk ⟨i, e, v, ft v⟩)
+    {log : List (Event (v9Codec ft))} {id : Nat} {p : Bytes} (hs : Sol log id p) :
     ∃ (d : Dgram) (cache : Cache) (h : Hdr) (recs : List Record) (errs : List Err),
-      Event.received d ∈ s.log ∧ d.id = id ∧
+      Event.received d ∈ log ∧ d.id = id ∧
       (V9.decode cache d.addr d.bytes).1 = .ok (h, recs, errs) ∧ recs ≠ [] ∧
       p = render (v9Tree d.addr h (toJRecs ft recs)) ∧
       DVal p (v9Tree d.addr h (toJRecs ft recs)) ∧ jsonValid p = true := by
-  obtain ⟨d, cache, h1, h2, m, hm, hd, hmar⟩ := C12.solo_spelled_out ((C12.published_is_solo hc hr).2.2 id p hp)
+  obtain ⟨d, cache, h1, h2, m, hm, hd, hmar⟩ := C12.solo_spelled_out hs
   have hdec : (v9Codec ft).decode cache d.addr d.bytes =
       (match V9.decode cache d.addr d.bytes with
        | (.ok (h, recs, _), c') => (some (d.addr, h, recs), c')
@@ -403,6 +415,19 @@ theorem v9_published_end_to_end {cfg : Cfg} {spec : CountSpec} (ft : Val → Byt
       · rw [hp', v9_marshal_eq_render]
       · rw [hp']; exact v9_marshal_valid _ _ _ hfo
       · rw [hp']; exact v9_marshal_accepted _ _ _ hfo
+
+/-- **C05 end to end (NetFlow v9)** -/
+theorem v9_published_end_to_end {cfg : Cfg} {spec : CountSpec} (ft : Val → Bytes)
+    (hft : ∀ i e v, FloatOk ⟨i, e, v, ft v⟩) (hc : Canonical spec cfg.prog)
+    {c : Cache} {mem0 : BufId → Bytes} {s : State (v9Codec ft)}
+    (hr : Reach cfg (init (v9Codec ft) c mem0) s) (id : Nat) (p : Bytes)
+    (hp : Event.published id p ∈ s.log) :
+    ∃ (d : Dgram) (cache : Cache) (h : Hdr) (recs : List Record) (errs : List Err),
+      Event.received d ∈ s.log ∧ d.id = id ∧
+      (V9.decode cache d.addr d.bytes).1 = .ok (h, recs, errs) ∧ recs ≠ [] ∧
+      p = render (v9Tree d.addr h (toJRecs ft recs)) ∧
+      DVal p (v9Tree d.addr h (toJRecs ft recs)) ∧ jsonValid p = true :=
+  v9_sol_spec ft hft ((C12.published_is_solo hc hr).2.2 id p hp)
 
 /-- … and with the worker loops the current source has (regenerated `Gen.ipfixWorker` / `Gen.netflowV9Worker`) -/
 theorem ipfix_published_current_source (ft : Val → Bytes) (hft : ∀ i e v, FloatOk ⟨i, e, v, ft v⟩)
@@ -445,15 +470,13 @@ def v5CodecA : Codec where
   hasData := fun m => !m.2.flows.isEmpty
   marshal := fun m => some (V5.marshal (ipBytes m.1) m.2)
 
-/-- **C05 end to end (NetFlow v5)**: unconditional (no float or string fields) -/
-theorem v5_published_end_to_end {cfg : Cfg} {spec : CountSpec} (hc : Canonical spec cfg.prog)
-    {mem0 : BufId → Bytes} {s : State v5CodecA}
-    (hr : Reach cfg (init v5CodecA () mem0) s) (id : Nat) (p : Bytes)
-    (hp : Event.published id p ∈ s.log) :
+/-- what a solo result of this codec is -/
+theorem v5_sol_spec 
+    {log : List (Event (v5CodecA))} {id : Nat} {p : Bytes} (hs : Sol log id p) :
     ∃ (d : Dgram) (m : V5.Msg),
-      Event.received d ∈ s.log ∧ d.id = id ∧ V5.decode d.bytes = .ok m ∧ m.flows ≠ [] ∧
+      Event.received d ∈ log ∧ d.id = id ∧ V5.decode d.bytes = .ok m ∧ m.flows ≠ [] ∧
       p = render (v5Tree d.addr m) ∧ DVal p (v5Tree d.addr m) ∧ jsonValid p = true := by
-  obtain ⟨d, cache, h1, h2, m, hm, hd, hmar⟩ := C12.solo_spelled_out ((C12.published_is_solo hc hr).2.2 id p hp)
+  obtain ⟨d, cache, h1, h2, m, hm, hd, hmar⟩ := C12.solo_spelled_out hs
   have hdec : (v5CodecA.decode cache d.addr d.bytes).1 =
       (match V5.decode d.bytes with
        | .ok m => some (d.addr, m)
@@ -474,6 +497,16 @@ theorem v5_published_end_to_end {cfg : Cfg} {spec : CountSpec} (hc : Canonical s
     · rw [hp']; exact v5_marshal_valid _ _
     · rw [hp']; exact v5_marshal_accepted _ _
 
+/-- **C05 end to end (NetFlow v5)**: unconditional (no float or string fields) -/
+theorem v5_published_end_to_end {cfg : Cfg} {spec : CountSpec} (hc : Canonical spec cfg.prog)
+    {mem0 : BufId → Bytes} {s : State v5CodecA}
+    (hr : Reach cfg (init v5CodecA () mem0) s) (id : Nat) (p : Bytes)
+    (hp : Event.published id p ∈ s.log) :
+    ∃ (d : Dgram) (m : V5.Msg),
+      Event.received d ∈ s.log ∧ d.id = id ∧ V5.decode d.bytes = .ok m ∧ m.flows ≠ [] ∧
+      p = render (v5Tree d.addr m) ∧ DVal p (v5Tree d.addr m) ∧ jsonValid p = true :=
+  v5_sol_spec  ((C12.published_is_solo hc hr).2.2 id p hp)
+
 /-- the sFlow instance (filter list `f`; no cache; the worker's `len(Counters) < 1 && len(Samples) < 1` test;
 `json.Marshal(datagram)`, which fails — nothing is published — exactly when an address has a length other than 0, 4, 16;
 `ColTime` is 0 in the model) -/
@@ -487,16 +520,14 @@ def sflowCodec (f : List Nat) : Codec where
   hasData := fun d => !(d.counters.isEmpty && d.samples.isEmpty)
   marshal := fun d => Sflow.Json.sflowJson? d
 
-/-- **C05 end to end (sFlow)**: unconditional -/
-theorem sflow_published_end_to_end {cfg : Cfg} {spec : CountSpec} (f : List Nat) (hc : Canonical spec cfg.prog)
-    {mem0 : BufId → Bytes} {s : State (sflowCodec f)}
-    (hr : Reach cfg (init (sflowCodec f) () mem0) s) (id : Nat) (p : Bytes)
-    (hp : Event.published id p ∈ s.log) :
+/-- what a solo result of this codec is -/
+theorem sflow_sol_spec (f : List Nat)
+    {log : List (Event (sflowCodec f))} {id : Nat} {p : Bytes} (hs : Sol log id p) :
     ∃ (d : Dgram) (dg : Sflow.Datagram),
-      Event.received d ∈ s.log ∧ d.id = id ∧ Sflow.decode f d.bytes = .ok dg ∧
+      Event.received d ∈ log ∧ d.id = id ∧ Sflow.decode f d.bytes = .ok dg ∧
       (dg.counters ≠ [] ∨ dg.samples ≠ []) ∧
       p = render (Sflow.Json.sflowTree dg) ∧ DVal p (Sflow.Json.sflowTree dg) ∧ jsonValid p = true := by
-  obtain ⟨d, cache, h1, h2, m, hm, hd, hmar⟩ := C12.solo_spelled_out ((C12.published_is_solo hc hr).2.2 id p hp)
+  obtain ⟨d, cache, h1, h2, m, hm, hd, hmar⟩ := C12.solo_spelled_out hs
   have hdec : ((sflowCodec f).decode cache d.addr d.bytes).1 =
       (match Sflow.decode f d.bytes with
        | .ok dg => some dg
@@ -521,6 +552,55 @@ theorem sflow_published_end_to_end {cfg : Cfg} {spec : CountSpec} (f : List Nat)
   | err e => rw [hx] at hm; simp at hm
   | panic => rw [hx] at hm; simp at hm
   | fuel => rw [hx] at hm; simp at hm
+
+/-- **C05 end to end (sFlow)**: unconditional -/
+theorem sflow_published_end_to_end {cfg : Cfg} {spec : CountSpec} (f : List Nat) (hc : Canonical spec cfg.prog)
+    {mem0 : BufId → Bytes} {s : State (sflowCodec f)}
+    (hr : Reach cfg (init (sflowCodec f) () mem0) s) (id : Nat) (p : Bytes)
+    (hp : Event.published id p ∈ s.log) :
+    ∃ (d : Dgram) (dg : Sflow.Datagram),
+      Event.received d ∈ s.log ∧ d.id = id ∧ Sflow.decode f d.bytes = .ok dg ∧
+      (dg.counters ≠ [] ∨ dg.samples ≠ []) ∧
+      p = render (Sflow.Json.sflowTree dg) ∧ DVal p (Sflow.Json.sflowTree dg) ∧ jsonValid p = true :=
+  sflow_sol_spec f ((C12.published_is_solo hc hr).2.2 id p hp)
+
+/-- **lines at the sink, NetFlow v9 / v5 / sFlow**: as `ipfix_sink_lines` -/
+theorem v9_sink_lines {cfg : Cfg} {spec : CountSpec} (ft : Val → Bytes)
+    (hft : ∀ i e v, FloatOk ⟨i, e, v, ft v⟩) (hc : Canonical spec cfg.prog)
+    {c : Cache} {mem0 : BufId → Bytes} {s : State (v9Codec ft)}
+    (hr : Reach cfg (init (v9Codec ft) c mem0) s)
+    (wo : Nat → Producer.WOut) (dl : Nat → Producer.DOut) (rm : Nat) :
+    ∀ e ∈ (Producer.run wo dl rm (s.delivered.reverse.map (·.2))).delivered,
+      ∃ (d : Dgram) (cache : Cache) (h : Hdr) (recs : List Record) (errs : List Err),
+        Event.received d ∈ s.log ∧ (V9.decode cache d.addr d.bytes).1 = .ok (h, recs, errs) ∧
+        e.data = render (v9Tree d.addr h (toJRecs ft recs)) ++ [10] ∧
+        jsonValid (render (v9Tree d.addr h (toJRecs ft recs))) = true := by
+  intro e he
+  obtain ⟨id, p, hs, hdata⟩ := sink_chunk_is_solo hc hr wo dl rm e he
+  obtain ⟨d, cache, h, recs, errs, h1, _, h3, _, h5, _, h7⟩ := v9_sol_spec ft hft hs
+  exact ⟨d, cache, h, recs, errs, h1, h3, by rw [hdata]; simp only [h5], by rw [← h5]; exact h7⟩
+
+theorem v5_sink_lines {cfg : Cfg} {spec : CountSpec} (hc : Canonical spec cfg.prog)
+    {mem0 : BufId → Bytes} {s : State v5CodecA} (hr : Reach cfg (init v5CodecA () mem0) s)
+    (wo : Nat → Producer.WOut) (dl : Nat → Producer.DOut) (rm : Nat) :
+    ∀ e ∈ (Producer.run wo dl rm (s.delivered.reverse.map (·.2))).delivered,
+      ∃ (d : Dgram) (m : V5.Msg), Event.received d ∈ s.log ∧ V5.decode d.bytes = .ok m ∧
+        e.data = render (v5Tree d.addr m) ++ [10] ∧ jsonValid (render (v5Tree d.addr m)) = true := by
+  intro e he
+  obtain ⟨id, p, hs, hdata⟩ := sink_chunk_is_solo hc hr wo dl rm e he
+  obtain ⟨d, m, h1, _, h3, _, h5, _, h7⟩ := v5_sol_spec hs
+  exact ⟨d, m, h1, h3, by rw [hdata]; simp only [h5], by rw [← h5]; exact h7⟩
+
+theorem sflow_sink_lines {cfg : Cfg} {spec : CountSpec} (f : List Nat) (hc : Canonical spec cfg.prog)
+    {mem0 : BufId → Bytes} {s : State (sflowCodec f)} (hr : Reach cfg (init (sflowCodec f) () mem0) s)
+    (wo : Nat → Producer.WOut) (dl : Nat → Producer.DOut) (rm : Nat) :
+    ∀ e ∈ (Producer.run wo dl rm (s.delivered.reverse.map (·.2))).delivered,
+      ∃ (d : Dgram) (dg : Sflow.Datagram), Event.received d ∈ s.log ∧ Sflow.decode f d.bytes = .ok dg ∧
+        e.data = render (Sflow.Json.sflowTree dg) ++ [10] ∧ jsonValid (render (Sflow.Json.sflowTree dg)) = true := by
+  intro e he
+  obtain ⟨id, p, hs, hdata⟩ := sink_chunk_is_solo hc hr wo dl rm e he
+  obtain ⟨d, dg, h1, _, h3, _, h5, _, h7⟩ := sflow_sol_spec f hs
+  exact ⟨d, dg, h1, h3, by rw [hdata]; simp only [h5], by rw [← h5]; exact h7⟩
 
 /-- non-vacuity of the chain: the example message of C03 (a template, an options template, two data sets with a
 variable-length field and set padding, three records) meets both hypotheses -/
